@@ -457,7 +457,86 @@ def history_case(ctx, case):
     return r
 
 
-COMPONENTS = {'history': history_case}
+def stalled_case(ctx, case):
+    """disconnect() 'always leads to the networking thread terminating' -
+    also while that thread is blocked in the middle of a frame that a
+    stalled server never completes (free-running threads on the in-memory
+    network; the read can only be ended by the client itself).
+    case {version, compress, where: 'prefix'|'body'|'idle', immediate}"""
+    import time
+    from vlib import wire
+    version = case['version']
+    ctx.ev()
+    login = [('compress', case['compress'])] \
+        if case.get('compress') is not None else []
+    first = servers.Server({'version': version, 'login': login +
+                            [('success',)],
+                            'play': {'bursts': [], 'end': 'silent'}})
+    second = servers.Server({'version': version, 'login': [('success',)],
+                             'play': {'bursts': [[('keep_alive',
+                                                   {'keep_alive_id': 3})]],
+                                      'mode': 'all', 'end': 'disconnect'}})
+    world = vnet.World(servers=[first, second])
+    world.block_guard = 4.0
+    errs = []
+    with vnet.installed(world):
+        conn, o = servers.make_connection(world, allowed_versions={version})
+        try:
+            conn.connect()
+            for _ in range(3000):
+                if world.links and first.play_started:
+                    break
+                time.sleep(0.001)
+            link = world.links[0]
+            if not world.wait_idle(link, conn):
+                from vlib.core import HarnessError
+                raise HarnessError('C16 stalled: login did not settle')
+            part = {'prefix': b'\xe4', 'idle': b'',
+                    'body': wire.varint(100) + b'\x00' * 10}[case['where']]
+            if part:
+                r0 = link.reads
+                link.emit(part)
+                # wait until the client has taken every byte and asked for
+                # more (it now sits in a read that only it can end)
+                for _ in range(4000):
+                    if not link.s2c and link.reads > r0 + (
+                            1 if case['where'] == 'prefix' else 1):
+                        break
+                    time.sleep(0.001)
+                time.sleep(0.05)
+            t0 = time.time()
+            conn.disconnect(immediate=bool(case.get('immediate')))
+            state = world.settle(timeout=20.0)
+            took = time.time() - t0
+        except Exception as e:
+            if type(e).__name__ == 'HarnessError':
+                raise
+            ctx.fail('stalled', 'S3-disconnect-raised', case, exc=e)
+            world.kill_all()
+            return
+        if state != 'done' or world.blocked:
+            ctx.fail('stalled', 'S4-thread-never-terminates-after-disconnect',
+                     case, 'networking thread still blocked in read %.1fs '
+                     'after disconnect() returned (%s)' % (took, state),
+                     'terminates')
+            world.kill_all()
+            return
+        try:
+            conn.connect()
+            state2 = world.settle(timeout=20.0)
+        except Exception as e:
+            ctx.fail('stalled', 'S5-cannot-connect-again', case, exc=e)
+            return
+    if state2 != 'done' or second.replies != [('keep_alive', 3)]:
+        ctx.fail('stalled', 'S5-final-session-did-not-reach-play', case,
+                 (state2, second.replies), ('done', [('keep_alive', 3)]))
+        return
+    if case['where'] != 'idle':
+        ctx.nt('stalled', repr(case))
+    ctx.label('stalled_' + case['where'])
+
+
+COMPONENTS = {'history': history_case, 'stalled': stalled_case}
 
 OPS = ['connect', 'status', 'disconnect', 'disconnect_now', 'settle',
        'step']
@@ -569,9 +648,23 @@ def t_random(ctx, n, maxcalls, fine):
     hyp(ctx, 'random_fine' if fine else 'random', strat, body, n)
 
 
+def t_stalled(ctx):
+    k = 0
+    for v in (757, 340, 47):
+        for where in ('prefix', 'body', 'idle'):
+            for imm in (False, True):
+                k += 1
+                stalled_case(ctx, {'version': v, 'where': where,
+                                   'immediate': imm,
+                                   'compress': [None, 64][k % 2]})
+    ctx.exhaustive_done('disconnect while the networking thread is blocked '
+                        'inside a frame of a stalled server: 3 protocols x '
+                        '3 positions x 2 disconnect modes')
+
+
 def tasks(tier):
     q = tier == 'quick'
-    tl = []
+    tl = [('stalled', t_stalled, {})]
     for i in range(len(SMALL)):
         nsh = (3 if len(SMALL[i]['programs']) > 1 else 1) if q else 4
         for k in range(nsh):
